@@ -261,4 +261,19 @@ example : arithPixel F32.rnd 0 1 0 0 ⟨10, 20, 30, 200⟩ ⟨0, 0, 0, 0⟩ = so
 example : (applyColorMatrix F32.rnd [1,0,0,0,0, 0,1,0,0,0, 0,0,1,0,0, 0,0,0,1,0] ⟨10, 20, 30, 200⟩)
     = ⟨10, 20, 30, 200⟩ := by decide +kernel
 
+/-- **lighting results are valid premultiplied pixels**: the alpha the lighting kernels store is at least
+    every colour channel (specular: the largest channel, and no larger; diffuse: 255), for all channel
+    values — in particular whatever the order of the channels of `lighting-color` -/
+theorem C16_lighting_valid (specular : Bool) (r g b : Nat) (hr : r ≤ 255) (hg : g ≤ 255) (hb : b ≤ 255) :
+    (lightingPixel specular r g b).valid ∧
+    (specular = true → ((lightingPixel specular r g b).a = r ∨ (lightingPixel specular r g b).a = g ∨
+      (lightingPixel specular r g b).a = b)) := by
+  unfold lightingPixel Px.valid specularAlpha diffuseAlpha
+  cases specular <;> simp <;> omega
+
+/-- a three-way maximum that forgets one channel in one branch (the shape of a hand-written `if`) is not
+    valid: blue > green > red leaves blue above alpha -/
+example : ¬ ({ r := 16, g := 76, b := 135, a := (if (16 : Nat) ≥ 76 then max 16 135 else 76) } : Px).valid := by
+  unfold Px.valid; decide
+
 end Resvg.Props.C16
